@@ -40,6 +40,7 @@ type Obligation struct {
 type Cont func(st *State, fr *Frame, ret Val)
 
 type Exec struct {
+	lockEdges map[string]map[string]string // lock acquired while another is held: from -> to -> function
 	activeClass map[int]bool // channel classes whose message invariant is assumed (and proved) in this run
 	inRun map[string]bool // functions verified in this run (nil = all)
 	prog         *Program
@@ -1456,6 +1457,10 @@ func (ex *Exec) ctxAware(st *State, fr0 *Frame, instr ssa.Instruction, what stri
 		ex.oblige(st, "nonblocking", fmt.Sprintf("%s#nonblocking@%s#%d", fr0.key, what, ex.ordinalOf(fr0, instr, what)), sp.NonBlock.Labels, "false", sp.NonBlock, ex.posOf(instr))
 	}
 	if sp == nil || sp.CtxAware == nil {
+		if os.Getenv("GOATVC_SWEEP") != "" && !ok {
+			// diagnostic mode: list every blocking channel operation that has no context alternative
+			ex.oblige(st, "ctxaware", fmt.Sprintf("%s#sweep-blocking@%s#%d", fr0.key, what, ex.ordinalOf(fr0, instr, what)), sweepClause.Labels, "false", sweepClause, ex.posOf(instr))
+		}
 		return
 	}
 	goal := "false"
